@@ -31,7 +31,8 @@
    open and listening), on top of the unconditional consumption invariant. *)
 From Coq Require Import List NArith Bool.
 Import ListNotations.
-From DTN Require Import Lib.Bytes Model.TcpclMsg Model.TcpclSess Proofs.TcpclMsgProofs Proofs.TcpclChannelProofs.
+From DTN Require Import Lib.Bytes Model.TcpclMsg Model.TcpclSess Proofs.TcpclMsgProofs Proofs.TcpclChannelProofs
+  Proofs.TcpclChannelSent.
 Local Open Scope N_scope.
 
 (* ---- consumption: every octet read is part of a frame that was acted on
@@ -61,23 +62,34 @@ Theorem C07_session_handled_shape :
 Proof. exact handled_shape. Qed.
 Print Assumptions C07_session_handled_shape.
 
-(* ---- the channel lemma: for ALL operation lists of both endpoints, if what
-        B has read is a prefix of what A's socket accepted, then the frames B
-        acted on are a prefix of the frames A sent.
-        Explicit premises about the sender A (facts of the transmit side of
-        the model, proved elsewhere / to be discharged):
-          sent_accounting   wire ++ conn_tx ++ msg_tx = enc sent
-          sent well-formed  Forall wf_frame (sent sA)
-          contact first     sent sA is empty or a contact header followed by messages *)
+(* ---- sender-side accounting: every octet the socket accepted or that is
+        still in one of the two transmit buffers comes from the encoding of a
+        sent frame, in order; for every operation list *)
+Theorem C07_sent_accounting :
+  forall (c : cfg) (ops : list op),
+    wire (run c ops) ++ conn_tx (run c ops) ++ msg_tx (run c ops)
+    = concat (map encode_frame (sent (run c ops))).
+Proof. exact sent_accounting. Qed.
+Print Assumptions C07_sent_accounting.
+
+(* ---- the channel lemma: for ALL operation lists of both endpoints (every
+        schedule, chunking, back-pressure pattern), if what B has read is a
+        prefix of what A's socket accepted, then the frames B acted on are a
+        prefix of the frames A sent.
+        Two premises about the sender A are left explicit (facts of the
+        transmit side of the model that are not proved here):
+          sent well-formed  Forall wf_frame (sent sA)   (holds under bounds on the
+                            configuration and the operations: node id < 2^16 octets,
+                            keepalive < 2^16, seg_mru < 2^64, OSend data < 2^64 octets,
+                            fewer than 2^64 sends, OTerm reason < 256, ...)
+          contact first     sent sA is empty or one contact header followed by messages *)
 Theorem C07_channel :
   forall (cA : cfg) (opsA : list op) (cB : cfg) (opsB : list op),
     (exists rest, wire (run cA opsA) = received (init cB) opsB ++ rest) ->
-    wire (run cA opsA) ++ conn_tx (run cA opsA) ++ msg_tx (run cA opsA)
-      = concat (map encode_frame (sent (run cA opsA))) ->
     Forall wf_frame (sent (run cA opsA)) ->
     (sent (run cA opsA) = [] \/ exists h ms, sent (run cA opsA) = FContact h :: map FMsg ms) ->
     exists more, sent (run cA opsA) = handled (run cB opsB) ++ more.
-Proof. exact channel. Qed.
+Proof. exact channel_acc. Qed.
 Print Assumptions C07_channel.
 Example C07_channel_nonvacuous :
   (* A (active) starts and its socket takes the contact header; B (passive)
